@@ -24,7 +24,9 @@
      cone_okb c leaves [] nodes   nodes is a topological order of a cone over leaves whose gates
                             have a type and operand count that eval_pattern handles
      compared k care v      v is in the care set, or (care = None) has one Boolean per leaf
-     replaced_internal old new outs   gates of old that changed or disappeared, except outs *)
+     replaced_internal old new outs   gates of old, except outs, that changed or disappeared, and the
+                            gates of old that depend on one of them without passing through outs
+                            (a new gate can get the label, type and operands of a removed one) *)
 Require Import Cirbo.Model.Base Cirbo.Model.Gate Cirbo.Model.Den Cirbo.Model.Circuit
         Cirbo.Model.Eval Cirbo.Model.Sem Cirbo.Model.ConeSem Cirbo.Model.PatternSim
         Cirbo.Model.SubcircuitValidator.
@@ -173,7 +175,7 @@ Proof. exact check_step_map_sound_Eval. Qed.
    PROVED (validator form): the same conclusion for any two states old / new that the
    executable check_subst accepts - the cone agreement and the frame conditions (new is
    acyclic: a checked operands-first order; the leaves survive and are not cone outputs; no
-   untouched gate other than a cone output reads a replaced internal gate; same interface;
+   gate outside the replaced internal gates, other than a cone output, reads one of them; same interface;
    only cone gates touched) are checked on the two states instead of being derived from the
    definition of replace_subcircuit; the proviso "no leaf depends on a replaced output" is
    not needed in this form (acyclicity of the result is checked instead); the harness checks for every recorded step that
